@@ -70,22 +70,59 @@ where
         assert_eq!(self.n() as u32, key_infos.n());
 
         let lvl_0: usize = self.glwe_automorphism_tmp_bytes(res_infos, a_infos, key_infos);
-        if a_infos.base2k() != key_infos.base2k() {
-            let lvl_1: usize = VecZnx::bytes_of(
+        let lvl_1: usize = if a_infos.base2k() != key_infos.base2k() {
+            VecZnx::bytes_of(
                 self.n(),
                 (key_infos.rank_out() + 1).into(),
                 res_infos.max_k().min(a_infos.max_k()).div_ceil(key_infos.base2k()) as usize,
-            ) + self.vec_znx_normalize_tmp_bytes();
-            return lvl_0 + lvl_1;
-        }
-
-        let lvl_1: usize = if res_infos.max_k() > a_infos.max_k() {
+            ) + self.vec_znx_normalize_tmp_bytes()
+        } else if res_infos.max_k() > a_infos.max_k() {
             GLWE::<Vec<u8>>::bytes_of_from_infos(res_infos)
         } else {
             GLWE::<Vec<u8>>::bytes_of_from_infos(a_infos)
         };
 
-        lvl_0 + lvl_1
+        // glwe_trace works on a temporary in the key radix and runs glwe_trace_assign on it
+        // (sized from the limb counts: an allocated ciphertext reports max_k = size * base2k)
+        let a_k: u32 = a_infos.size() as u32 * a_infos.base2k().as_u32();
+        let res_k: u32 = res_infos.size() as u32 * res_infos.base2k().as_u32();
+        let tmp_infos: GLWELayout = GLWELayout {
+            n: res_infos.n(),
+            base2k: key_infos.base2k(),
+            k: a_k.max(res_k).into(),
+            rank: res_infos.rank(),
+        };
+        let lvl_tmp: usize = GLWE::<Vec<u8>>::bytes_of_from_infos(&tmp_infos).next_multiple_of(64)
+            + self
+                .glwe_trace_assign_tmp_bytes_default(&tmp_infos, key_infos)
+                .max(self.glwe_normalize_tmp_bytes());
+
+        (lvl_0 + lvl_1)
+            .max(lvl_tmp)
+            .max(self.glwe_trace_assign_tmp_bytes_default(res_infos, key_infos))
+    }
+
+    /// Scratch needed by [`GLWETrace::glwe_trace_assign`] alone: what is left once `glwe_trace` has taken
+    /// its temporary must only cover this, not the full [`GLWETrace::glwe_trace_tmp_bytes`] again.
+    fn glwe_trace_assign_tmp_bytes_default<R, K>(&self, res_infos: &R, key_infos: &K) -> usize
+    where
+        R: GLWEInfos,
+        K: GGLWEInfos,
+    {
+        let conv_infos: GLWELayout = GLWELayout {
+            n: res_infos.n(),
+            base2k: key_infos.base2k(),
+            k: (res_infos.size() as u32 * res_infos.base2k().as_u32()).into(),
+            rank: res_infos.rank(),
+        };
+        let lvl_loop: usize = self
+            .glwe_automorphism_tmp_bytes(&conv_infos, &conv_infos, key_infos)
+            .max(self.glwe_shift_tmp_bytes());
+        if res_infos.base2k() != key_infos.base2k() {
+            GLWE::<Vec<u8>>::bytes_of_from_infos(&conv_infos).next_multiple_of(64) + lvl_loop.max(self.glwe_normalize_tmp_bytes())
+        } else {
+            lvl_loop
+        }
     }
 
     fn glwe_trace_default<R, A, K, H>(&self, res: &mut R, skip: usize, a: &A, keys: &H, scratch: &mut Scratch<BE>)
@@ -144,10 +181,10 @@ where
         assert_eq!(ksk_infos.rank_in(), res.rank());
         assert_eq!(ksk_infos.rank_out(), res.rank());
         assert!(
-            scratch.available() >= self.glwe_trace_tmp_bytes_default(res, res, ksk_infos),
+            scratch.available() >= self.glwe_trace_assign_tmp_bytes_default(res, ksk_infos),
             "scratch.available(): {} < GLWETrace::glwe_trace_tmp_bytes: {}",
             scratch.available(),
-            self.glwe_trace_tmp_bytes_default(res, res, ksk_infos)
+            self.glwe_trace_assign_tmp_bytes_default(res, ksk_infos)
         );
 
         if res.base2k() != ksk_infos.base2k() {
